@@ -33,7 +33,7 @@ META = {
     ),
     "trusted_base": ["rustc nightly front end, constant evaluator, target-feature implication lists", "core/std/hex-simd are free of UB", "core::arch intrinsics are sound when their target features are available",
                      "core::slice::select_nth_unstable post-condition (left <= pivot <= right)"],
-    "assumptions": ["x86_64 target; code behind `unstable` (core::intrinsics::assume, portable SIMD) and non-x86 backends is not compiled here"],
+    "assumptions": ["analysed targets: x86_64, aarch64 (NEON backend), i686, wasm32 (simd128 backend); code behind `unstable` (core::intrinsics::assume, portable SIMD, 32-bit Arm) does not compile with the installed nightly and is not analysed"],
     "not_decided": ["that sums of part distances / kernel accumulators stay below u32::MAX (follows from the part maxima, body part not decided)",
                     "the debug-only q1<=q2<=q3 assertion inside naive::get_quartile (closure capture not traced; same condition discharged at the dispatcher)"],
 }
@@ -146,6 +146,7 @@ def invariants(ctx, F):
     envs = layout.variant_envs(F)
     gen = F.impl_consts("generate::inner::Generator<")
     sites = []
+    folded = []
     for b in F.bodies:
         if b.kind not in ("Fn", "AssocFn", "Closure") or not b.mir:
             continue
@@ -160,7 +161,23 @@ def invariants(ctx, F):
         if not has:
             continue
         S = sym.Sym(b)
-        for p in S.paths():
+        # failure blocks of invariant! expansions (diverging calls carrying the macro in their backtrace)
+        inv_blocks = set()
+        for i, blk in enumerate(b.blocks):
+            t = blk["term"]
+            macs = (t.get("loc") or {}).get("macros") or []
+            if t["t"] == "call" and t.get("target") is None and (
+                    any(m.rsplit("::", 1)[-1] in ("invariant_impl", "invariant") for m in macs)
+                    or (unsafe_cfg and (t["callee"].get("path") or "") == "core::hint::unreachable_unchecked")):
+                inv_blocks.add(i)
+        reached = set()
+        all_paths = S.paths()
+        for p in all_paths:
+            reached |= set(p.blocks) & inv_blocks
+        for i in sorted(inv_blocks - reached):
+            # the walk folded the invariant's condition: crate constants make it true for every variant (constfold.py)
+            folded.append((b, i))
+        for p in all_paths:
             if p.end != "diverge" and p.end != "unreachable":
                 continue
             last = p.calls[-1] if p.calls else None
@@ -188,6 +205,13 @@ def invariants(ctx, F):
         ctx.ob(r, (b.path, "invariant", sym.fmt(e)[:100]), ok,
                "invariant `%s` in %s is not discharged (%s); under the `unsafe` feature its failure is undefined behaviour" % (sym.fmt(e)[:120], b.path, how_d or "no rule applies"),
                cfg=F.key, where=b.where(), detail={"discharged_by": how_d, "via": how.rsplit("::", 1)[-1]})
+    per_fn = {}
+    for (b, i) in folded:
+        k_ = per_fn.get(b.path, 0)
+        per_fn[b.path] = k_ + 1
+        ctx.instance(r)
+        ctx.ob(r, (b.path, "invariant", "decided-by-constants#%d" % k_), True, "", cfg=F.key, where=b.where(),
+               detail={"discharged_by": "the condition is built from crate constants only and is true for every variant; the failing arm is unreachable"})
     ctx.floor(r, 5, "invariant! sites")
 
 
